@@ -323,7 +323,15 @@ fn cql_of_type(t: &Ty, r: &mut Rng, holes: bool, depth: u32) -> CqlValue {
             if holes && r.chance(1, 3) {
                 r.shuffle(&mut fields);
             }
-            CqlValue::UserDefinedType { keyspace: definition.keyspace.to_string(), name: definition.name.to_string(), fields }
+            if holes && r.chance(1, 12) {
+                fields.push(("zz".to_string(), Some(CqlValue::Int(1)))); // a field the type does not have
+            }
+            if holes && r.chance(1, 12) && !fields.is_empty() {
+                let f = fields[0].clone();
+                fields.push(f); // a duplicate entry: the last one counts
+            }
+            let name = if holes && r.chance(1, 12) { "other".to_string() } else { definition.name.to_string() };
+            CqlValue::UserDefinedType { keyspace: definition.keyspace.to_string(), name, fields }
         }
         _ => CqlValue::Int(1),
     }
